@@ -176,6 +176,9 @@ def c06(chk):
     chk.assumptions = ["malformed QUIC packets are quinn's job; exhaustion by sheer volume is out of scope",
                        "the adversary holds a valid identity of its own (it is a connected peer)"]
     chk.add_mc(tlc_mc("AnemoRpc.tla", "MC_Rpc_hostile.cfg", workers=8, timeout=900))
+    # liveness: whatever a hostile stream does (garbage, stalling for ever), an honest call that got its
+    # stream ends with its response, and the callee's side of every finished stream is released
+    chk.add_mc(tlc_mc("AnemoRpc.tla", "MC_Rpc_live_hostile.cfg", workers=4, timeout=600))
     runs = 8 if quick(chk) else 200
     summ = harness("c06", out=os.path.join(vlib.WORK, "C06"), seed=chk.seed, runs=runs, jobs=8, files=4, wedge_s=90,
                    streams=60 if quick(chk) else 150)
@@ -201,6 +204,11 @@ def c08(chk):
     chk.assumptions = ["re-bindability and runtime teardown are OS / tokio effects observed on real sockets and threads; their "
                        "exploration is gate-driven and randomised, not exhaustive"]
     chk.add_mc(tlc_mc("AnemoShut.tla", "MC_Shut.cfg", workers=2, timeout=300))
+    # liveness under weak fairness of the manager's and the handlers' steps: a requested shutdown is
+    # answered unless the runtime goes first, and after a teardown every task comes to rest
+    chk.add_mc(tlc_mc("AnemoShut.tla", "MC_Shut_live.cfg", workers=2, timeout=300))
+    spec_mutant(chk, "live_handlers_notice_only_before_abort", "AnemoShut.tla", "MC_Shut_live.cfg",
+                [("AnemoShut.tla", '/\\ Up /\\ hs[h] = "alive" /\\ mgr # "running"', '/\\ Up /\\ hs[h] = "alive" /\\ mgr = "closed"')], workers=2)
     runs = 32 if quick(chk) else 800
     summ = harness("c08", out=os.path.join(vlib.WORK, "C08"), seed=chk.seed, runs=runs, jobs=12, files=8)
     summ["args"] = {}
